@@ -174,6 +174,8 @@ def checkIntrospect (b : Book) (tok scopes o : String) : List String :=
       (if outField o "sub" != g.subject then ["C09:reported-subject-differs"] else []) ++
       (if outField o "gs" != encListI g.gscopes then ["C09:reported-scopes-differ"] else []) ++
       (if outField o "ga" != encListI g.gaud then ["C09:reported-audience-differs"] else []) ++
+      (if !(decList (outField o "gs")).all (fun sc => g.gscopes.contains sc) then ["C12:token-carries-ungranted-scope"] else []) ++
+      (if !(decList (outField o "ga")).all (fun a => g.gaud.contains a) then ["C12:token-carries-ungranted-audience"] else []) ++
       (if outField o "use" != (if t.kind == 'A' then "access_token" else "refresh_token") then ["C09:reported-kind-differs"] else [])
     else if k == "inactive" then
       (if descExact tok && !t.dead && !expired && covered && !rtDisabled then ["C09:live-token-reported-inactive"] else [])
@@ -214,6 +216,7 @@ def check (b : Book) (f : List String) (o : String) : List String :=
         (if !pkceOK then
             [if g.challenge == "" then "C03:redeem-without-challenge-under-enforcement" else "C03:redeem-without-matching-verifier"] else []) ++
         (if outField o "scope" != encListW g.gscopes then ["C02:issued-scopes-differ-from-consent"] else []) ++
+        (if !(decList (outField o "scope")).all (fun sc => g.gscopes.contains sc) then ["C12:token-carries-ungranted-scope"] else []) ++
         (let rtIssued := outField o "rt" != "?"
          let rule := refreshScopesOK b g.gscopes
          if rtIssued && !rule then ["C05:refresh-token-issued-without-refresh-scope"] else [])
@@ -315,14 +318,26 @@ def check (b : Book) (f : List String) (o : String) : List String :=
         (if client != p.client then ["C17:request_uri-used-by-other-client"] else []) ++
         (if b.now > p.exp then ["C17:request_uri-honoured-after-expiry", "C07:request_uri-honoured-after-expiry"] else [])
       else []
-  | ["parPush", client, cred, hasUri, _bodySecret, _rts, _redirect, _secure, _state, _nonce, _scopes, _aud, _challenge, _method] =>
+  | ["parPush", client, cred, hasUri, _bodySecret, rts, _redirect, secure, _state, _nonce, scopes, _aud, _challenge, _method] =>
     let authed := match b.client client with | some c => c.isPublic || cred == "1" | none => false
+    let covered := match b.client client with
+      | some c => (decList scopes).all (fun sc => specCovers b c.scopes sc)
+      | none => false
     if k == "par" then
+      (if secure == "0" && (decList rts).any (fun t => t == "code" || t == "token" || t == "id_token")
+        then ["C11:plain-http-redirect-accepted-by-par"] else []) ++
+      (if !covered then ["C12:uncovered-scope-accepted"] else []) ++
       (if !authed then ["C17:push-without-client-authentication"] else []) ++
       (if hasUri == "1" then ["C17:push-containing-request_uri-accepted"] else [])
     else []
-  | ["authorize", _client, _rts, _redirect, _secure, _state, _nonce, _scopes, _aud, _gs, _ga, _sub, challenge, method] =>
+  | ["authorize", client, rts, _redirect, secure, _state, _nonce, scopes, _aud, _gs, _ga, _sub, challenge, method] =>
     (if k == "authz" && b.cfgv "enforcePAR" == "1" then ["C17:unpushed-request-accepted-under-enforcement"] else []) ++
+    -- the authorization-code flow accepts plain-http targets only on loopback / localhost hosts
+    (if k == "authz" && secure == "0" && decList rts == ["code"] then ["C11:plain-http-redirect-accepted-by-code-flow"] else []) ++
+    -- no flow accepts a requested scope that the registration does not cover
+    (if k == "authz" && !(match b.client client with
+        | some c => (decList scopes).all (fun sc => specCovers b c.scopes sc)
+        | none => false) then ["C12:uncovered-scope-accepted"] else []) ++
     -- a challenge registered under a method that is neither S256 nor (enabled) plain can only be compared as plain later
     (if k == "authz" && outField o "code" != "?" && challenge != "" &&
         !(method == "S256" || ((method == "plain" || method == "") && b.cfgv "plain" == "1"))
